@@ -162,7 +162,8 @@ def handle (mode : String) (line : String) : String :=
     | "serve" :: "udpwild" :: _ =>
       match words obs with
       | ["wild", "a", ga, "b", gb, "stopped", _, "srvinit", si] =>
-        if si != "1" then "violates the answer to a server-initiated request (Server.NewConn on a wildcard-bound server) did not reach the connection NewConn returned after other peers had used another local address of the server"
+        if si.length == 2 then s!"violates the peer of a server-initiated exchange on a wildcard-bound server is in the peer table under {si.drop 1} keys instead of one (one logical connection per peer: housekeeping visits every entry)"
+        else if si != "1" then "violates the answer to a server-initiated request (Server.NewConn on a wildcard-bound server) did not reach the connection NewConn returned after other peers had used another local address of the server"
         else if ga == "2/2" && gb == "1/1" then "ok"
         else s!"violates peers that reach a wildcard-bound datagram server over different local addresses: peer A got {ga} of its responses, peer B {gb} (a response must come from the address its request was sent to, whatever other peers send meanwhile)"
       | _ => "violates unparsable-observation"
